@@ -92,12 +92,14 @@ Print Assumptions C04_idempotent_refuted.
 
 (* PROVED PART of idempotence (partial): on kinds whose lists are atomic (no merge strategy in [sch], inference
    off), for patch and target that are mappings, have pairwise different keys in every mapping reached through
-   mappings ([wfk]) and -- the patch -- no "$patch" key in any mapping reached through mappings ([nodir]):
+   mappings ([wfk]) and -- the patch -- no "$patch" key in any mapping reached through mappings except
+   "$patch: delete" below the root ([nodir]):
    applying the patch to the result gives the result again, as exact node equality (tags, styles, order).
-   Covers nulls (also inside added mappings), added / merged / unmentioned mappings, scalar and list replacement,
+   Covers nulls (also inside added mappings), "$patch: delete" on mappings (present or absent in the target),
+   added / merged / unmentioned mappings, scalar and list replacement,
    kind errors (the first application must succeed). The fragment is the boolean [idem_fragment];
    [idem_example] (Yaml/Merge2Idem.v) is a non-trivial instance.
-   MISSING w.r.t. the full statement: "$patch" directives (delete / replace / merge at mapping level) and keyed lists
+   MISSING w.r.t. the full statement: "$patch: replace" / "$patch: merge" at mapping level and keyed lists
    (where it is false for list-level directives, see C04_idempotent_refuted). *)
 Theorem C04_idempotent_partial :
   forall (Sc : Type) (sch : schema Sc) (opts : wopts) (nonstr : string -> bool),
